@@ -16,9 +16,9 @@ func init() {
 			"transient => silent retry, fatal => return, unknown => exactly one blocking guarded report then continue, success => exactly one " +
 			"ProcessPacketData with that read's values, processing error => one report and never a return); the loop carries no state, so the " +
 			"per-iteration contract extends to every finite fault sequence by induction. The two classification predicates are folded over their atoms.",
-		NotDecided: []string{"wall-clock behaviour of the 5ms back-off", "what AF_PACKET returns for which kernel condition"},
+		NotDecided:  []string{"wall-clock behaviour of the 5ms back-off", "what AF_PACKET returns for which kernel condition"},
 		Assumptions: []string{"errors.Is / == on sentinel errors behave as documented", "the reader implementation returns a fresh (data, ci) pair per call"},
-		Run: runC20,
+		Run:         runC20,
 	})
 }
 
